@@ -44,7 +44,7 @@ fn offending(tier: Tier) -> Vec<(String, Vec<String>, Vec<u8>)> {
         ("host", "Host", "x", SMUGGLED.to_vec()),
         ("other", "X-A", "b", SMUGGLED.to_vec()),
     ];
-    let wss: Vec<(&str, &str)> = if full(tier) { vec![("sp", " "), ("tab", "\t")] } else { vec![("sp", " ")] };
+    let wss: Vec<(&str, &str)> = if full(tier) { vec![("sp", " "), ("tab", "\t"), ("vt", "\x0b"), ("ff", "\x0c")] } else { vec![("sp", " ")] };
     for (hc, name, val, after) in &headers {
         for (_wn, ws) in &wss {
             let mid = name.len() / 2;
@@ -200,11 +200,14 @@ impl Check for C16 {
         let class = c.class.clone();
         check_scenario(&sc, acc, &JudgeOpts::default(), true, &|f, _| std_key(f, &class), &extra);
     }
+    fn assumptions(&self) -> Vec<String> {
+        vec!["'whitespace' is read as the ASCII white-space characters that can occur inside a line: SP, HTAB, VT (0x0B) and FF (0x0C); bare CR / LF inside a header line are not generated here (line splitting is C02/C13's subject)".into()]
+    }
     fn rule(&self, tier: Tier) -> String {
         let classes: std::collections::BTreeSet<String> = offending(tier).into_iter().map(|o| o.0).collect();
         format!(
             "headers Content-Length / Transfer-Encoding / Host / X-A with SP{} inserted before the name, inside it, or before the colon, alone, after another header (obsolete line-folding shape) and with a framing companion; Content-Length values {{empty, +5, -5, -0, 5a, a5, 0x5, '5 5', '5,5', '5, 5', 5.0, abc, 2^64, 30 nines}} with and without a chunked companion; each at position 1..{} of a pipeline and followed by bytes arranged so that every possible misreading finds the request `GET /smuggled`; {} conversations in {} classes; expected: earlier answers, then 400 and end-of-stream, neither the offending request nor `GET /smuggled` delivered",
-            if full(tier) { "/HTAB" } else { "" }, if full(tier) { 3 } else { 2 }, cases(tier).len(), classes.len()
+            if full(tier) { "/HTAB/VT/FF" } else { "" }, if full(tier) { 3 } else { 2 }, cases(tier).len(), classes.len()
         )
     }
     fn replay(&self, replay: &Value, acc: &mut Acc) {
